@@ -72,3 +72,9 @@ add("C12",
     "~800 (quick) to ~2*10^4 (thorough) modules; predicted-valid modules must be accepted with every reference bound to the predicted definition and unique, round-tripping canonical names; predicted-faulty ones must be rejected at a predicted site without exception.",
     "Trusts: embgen/scopes.py's scoping model (from compiler-design.md, probed against the tree); pipeline stopped before annotate_types so only name resolution is judged.",
     "DESIGN.md §4 C12")
+
+add("C05",
+    "property-based testing with an independent evaluator: generated expression-heavy modules; every Expression node of the compiler's IR is evaluated under corner/special/random environments and compared with the inferred min/max/modulus/remainder/constant annotations; 64-bit gate checked by evaluation; tightness by exhaustive corner search on the variable-once fragment",
+    "~200 (quick) to ~5*10^3 (thorough) accepted modules, ~70 expression nodes each, 100-600 environments per node (all 2^k corners when k<=9); finds unsound transfer functions (sign, swapped min/max, modulus), wrong constant folding, unsound gate decisions and loose bounds on the tight fragment.",
+    "Trusts: my evaluator of the IR's operator semantics; leaf ranges of UInt/Int/Bcd by width; run-time = not under a constant-typed operator (as constraints.py defines it).",
+    "DESIGN.md §4 C05")
